@@ -9,6 +9,55 @@ HERE = os.path.dirname(os.path.dirname(os.path.abspath(__file__)))
 sys.path.insert(0, HERE)
 sys.dont_write_bytecode = True
 
+TECHNIQUE = {
+    'C01': 'static analysis: inventory of error-reporting sites against a reference table, '
+           'pass-sequence and sibling-agreement rules over ast path conditions, typestate of '
+           'symbol environments (vacuous-guard detection), parser-state reset rule',
+    'C02': 'static analysis: registry typestate and ownership (who writes which registry), '
+           'field-order predicates, falsy-value-confusion lint over the IR and frontend',
+    'C03': 'static analysis: exception-escape effect analysis over the call graph (least '
+           'fixpoint, try/except filtering), implicit-raise idioms, class-lattice dispatch '
+           'exhaustiveness, environment and registry typestate',
+    'C04': 'static analysis: sibling agreement of encoder/decoder dispatch partitions over the '
+           'validator class lattice, inverse primitive pairs, imported validator-profile rules',
+    'C05': 'static analysis: encoder shape partition (class lattice + path conditions) compared '
+           'with a table transcribed from docs/json_serializer.rst; slot-ownership rule',
+    'C06': 'static analysis: exception-escape analysis of the decoder, guard dominance of '
+           'container uses of the untrusted document, must-pass-through required-field check '
+           '(path enumeration)',
+    'C07': 'static analysis: path-condition lint (rejections of unknown material only under '
+           'strict, fallbacks only under lenient and catch-all), validator override inventory',
+    'C08': 'static analysis: constraint-profile agreement between ir.*.check and bv.*.validate, '
+           'parameter forwarding and Nullable wrap in the generated validator constructors',
+    'C09': 'static analysis: emission-order (define-before-use) over generator call sequences, '
+           'generated-name agreement, constructor-constraint relations compiler/runtime, '
+           'generator totality by class-lattice typing of IR consumers',
+    'C10': 'static analysis: accepted-literal profile agreement compiler/runtime, example '
+           'flattening partition, aliasing rule for stored examples, refusal-guard exactness',
+    'C11': 'static analysis: order-taint dataflow in the frontend, registry normalisation '
+           'inventory, phase separation of population passes, lexer state pairing and strip sets',
+    'C12': 'static analysis: order-taint dataflow (unordered collections to emission sinks) with '
+           'return/attribute/parameter/container summaries; per-run state reset inventory',
+    'C13': 'static analysis: ownership of per-permission tables, redaction-hook '
+           'must-pass-through, reaching definitions of the validator handed to the hook, '
+           'search-loop exit rule, class-lattice exhaustiveness of redactor kinds',
+    'C14': 'static analysis: sibling agreement of signature / construction / constructor field '
+           'order, generated-name agreement, generator totality by class-lattice typing',
+    'C15': 'static analysis: sibling agreement between stub and runtime emitters per declaration '
+           'kind, type-mapping exhaustiveness, import registration, generator totality',
+    'C16': 'static analysis: dispatch exhaustiveness and truth tables of the JS/TS emitters, '
+           'sibling agreement on namespace emptiness, generator totality by class-lattice typing',
+    'C17': 'static analysis: class-lattice typing of the Swift/ObjC backends and their Jinja '
+           'templates (attribute existence, dispatch totality, template binding and arity), '
+           'escaping dataflow, bracket pairing by path enumeration',
+    'C18': 'static analysis: write-sink containment by reaching definitions and guard '
+           'dominance, buffer ownership, manifest-mode reader inventory, every-path text emission',
+    'C19': 'static analysis: LALR(1) table inspection of the filter grammar (thorough tier), '
+           'evaluator truth tables, pruning-site pairing, regex-AST rule for lexer literals',
+    'C20': 'static analysis: traversal coverage of reference-bearing attributes over the IR '
+           'class lattice, registry rewrite inventory, route identity encode/decode pairing',
+}
+
 NOT_BUILT = 'check not built yet (see DESIGN.md section 4 for the planned structural rules)'
 NA = {}
 
@@ -39,7 +88,7 @@ for p in props:
             'design_ref': 'DESIGN.md section 4/%s' % pid,
         },
         'level_note': meta.get('level_note') or '; '.join(mod.ASSUMPTIONS),
-        'technique': meta.get('technique', 'static analysis: ast + path conditions'),
+        'technique': meta.get('technique') or TECHNIQUE[pid],
     })
 
 manifest = {
